@@ -2,6 +2,8 @@
 #include "opn2_contracts.h"
 static void writeRegI(size_t chip, uint8_t port, uint32_t index, uint32_t value);
 static void writePan(size_t chip, uint32_t index, uint32_t value);
+MIDIchannel g_vol_chan[1]; unsigned g_touch_calls; size_t g_touch_c; unsigned long g_touch_v, g_touch_cv, g_touch_ce; uint8_t g_touch_br; bool g_fullrange;
+enum { Upd_Volume_VALUE_CHECK = 0x4 };
 #include "extracted.c"
 
 uint8_t in_op_level[4]; uint8_t in_alg;
@@ -59,3 +61,15 @@ void h_setPan(void)
     setPan(c, v);
     REACH(g_synth.m_softPanning, "soft"); REACH(!g_synth.m_softPanning && v == 47, "hard left only"); REACH(!g_synth.m_softPanning && v == 80, "hard right only");
 }
+
+#ifdef WITH_VOLUME_RANGE
+_Bool nondet_bool(void); unsigned nondet_unsigned(void);
+void h_noteUpdate_volume(void)
+{
+    size_t midCh = nondet_size(); uint16_t c = (uint16_t)(nondet_unsigned() & 0xFFFF); uint8_t vol = nondet_u8(); unsigned mask = nondet_unsigned();
+    g_fullrange = nondet_bool(); __CPROVER_assume(midCh < ENV_N_MIDI_CHANNELS_VOL);
+    __CPROVER_assert(Upd_Volume == Upd_Volume_VALUE_CHECK, "the contract's mask constant is the extracted Upd_Volume");
+    noteUpdate_volume(midCh, c, vol, mask, g_vol_chan - midCh, g_fullrange);
+    REACH((mask & Upd_Volume) && g_touch_br == 126, "half-range brightness 63 -> 126"); REACH((mask & Upd_Volume) && midCh == 9, "percussion channel"); REACH(!(mask & Upd_Volume), "no volume update");
+}
+#endif
